@@ -16,6 +16,16 @@
 //                                  xconvert(accu.c_str() + plen, vector<T>&, &end, sep)   -> |accu| accu t (end - start) elems..
 //     8 3 ty d n v.. m w..         accu = ""; xconvert(accu, l1); accu += char(d); xconvert(accu, l2) -> |accu| accu |part1| ok1 m1 e.. ok2 m2 e..
 //     8 4 ty n v..                 accu = "["; xconvert(accu, vec); accu += "]"; string_cast(accu) -> |accu| accu ok m elems..
+//   9 ...                   the STREAM-PARSED types: every T without a typed overload goes through the fall back template
+//                           xconvert(const char*, T&, const char**, double) (std::istream over the string, end position from tellg()).
+//                           The text sits behind a guard character, so that a reported end position in front of the string is observed.
+//     9 0 ty e len bytes          xconvert(x, out, &end, 0), string_cast(x, out2)           -> tok val (end - x) (errno == ERANGE) cast_ok cast_val
+//     9 1 ta tb e len bytes       pair<A,B>, A / B in {30..33, 1 char, 2 int}, one of them 30..33 -> sum first second (end - x) cast_ok
+//     9 2 ty m e len bytes        m = 0: vector<T>: convert_seq<T>(x, |s| + 2, ...) first; if it fills all |s| + 2 places the parser makes
+//                                 no progress: -> t (end - x) -996; else xconvert(x, vector<T>&, &end, 0), string_cast -> t (end - x) elems.. cast_ok
+//                                 m = 1..3: the array T[m]: xconvert(x, T(&)[m], &end, 0), string_cast  -> t (end - x) elems.. cast_ok
+//     9 4                         SCHAR_MIN SCHAR_MAX UCHAR_MAX SHRT_MIN SHRT_MAX USHRT_MAX
+//     stream types: 30 signed char (int8_t) 31 unsigned char (uint8_t) 32 short 33 unsigned short
 // ty: 0 bool 1 char 2 int 3 unsigned 4 long 5 unsigned long 6 long long 7 unsigned long long
 //     8 Head_t 9 Body_t 10 Value_t 11 Heuristic_t 12 Directive_t 13 Theory_t 14 Tuple_t 15 Clause_t 16 Statistics_t
 //     17 Level_t 18 Sparse_t 19 Neg_t 20 Off_t 21 Unord_t 22 One_t: enumerations declared below with the PUBLIC macros
@@ -24,6 +34,7 @@
 #include <cerrno>
 #include <climits>
 #include <utility>
+#include <iterator>
 #include <potassco/string_convert.h>
 #include <potassco/basic_types.h>
 #include <potassco/theory_data.h>
@@ -320,6 +331,82 @@ template <class F> bool withFew(ll ty, F f) {
 }
 static bool isFew(ll ty) { return ty == 0 || ty == 2 || ty == 7 || ty == 10; }
 
+// ---- op 9: types parsed by the stream fall back ----
+// "#" + text: x[-1] is defined, an end position in front of the string is reported as a negative offset (not read out of bounds)
+struct Guarded {
+	std::vector<char> buf;
+	explicit Guarded(const std::string& s) : buf(s.size() + 2, '\0') { buf[0] = '#'; std::memcpy(&buf[1], s.c_str(), std::strlen(s.c_str())); buf[1 + std::strlen(s.c_str())] = 0; }
+	const char* x() const { return &buf[1]; }
+};
+template <class F> bool withStream(ll ty, F f) {
+	switch (ty) {
+		case 30: f(Tag<signed char>()); return true;
+		case 31: f(Tag<unsigned char>()); return true;
+		case 32: f(Tag<short>()); return true;
+		case 33: f(Tag<unsigned short>()); return true;
+		default: return false;
+	}
+}
+static bool isStream(ll ty) { return ty >= 30 && ty <= 33; }
+template <class F> bool withStreamComp(ll ty, F f) {
+	if (isStream(ty)) return withStream(ty, f);
+	if (ty == 1) { f(Tag<char>()); return true; }
+	if (ty == 2) { f(Tag<int>()); return true; }
+	return false;
+}
+static bool isStreamComp(ll ty) { return isStream(ty) || ty == 1 || ty == 2; }
+template <class T> void opStreamScalar(Obs& o, bool e, const std::string& s) {
+	Guarded g(s); const char* x = g.x();
+	T out = T(); const char* end = 0;
+	setErrno(e);
+	int tok = xconvert(x, out, &end, 0);
+	bool er = errno == ERANGE;
+	o.add(tok != 0 ? 1 : 0); o.add(tok != 0 ? static_cast<ll>(out) : 0); o.add(static_cast<ll>(end - x)); o.add(er ? 1 : 0);
+	T out2 = T();
+	setErrno(e);
+	bool ok = string_cast(x, out2);
+	o.add(ok ? 1 : 0); o.add(ok ? static_cast<ll>(out2) : 0);
+}
+template <class A, class B> void opStreamPair(Obs& o, bool e, const std::string& s) {
+	Guarded g(s); const char* x = g.x();
+	std::pair<A, B> out(Tr<A>::init(), Tr<B>::init()); const char* end = 0;
+	setErrno(e);
+	int sum = xconvert(x, out, &end, 0);
+	o.add(sum); o.add(sum >= 1 ? Tr<A>::enc(out.first) : 0); o.add(sum >= 2 ? Tr<B>::enc(out.second) : 0); o.add(static_cast<ll>(end - x));
+	std::pair<A, B> out2(Tr<A>::init(), Tr<B>::init());
+	setErrno(e);
+	o.add(string_cast(x, out2) ? 1 : 0);
+}
+template <class T> void opStreamVector(Obs& o, bool e, const std::string& s) {
+	Guarded g(s); const char* x = g.x();
+	std::size_t bound = std::strlen(x) + 2;
+	{ // every iteration of convert_seq consumes at least one character: more than |s| + 1 elements means no progress
+		std::vector<T> probe; const char* end = 0;
+		setErrno(e);
+		std::size_t t = convert_seq<T>(x, bound, std::back_inserter(probe), ',', &end);
+		if (t >= bound) { o.add(static_cast<ll>(t)); o.add(static_cast<ll>(end - x)); o.add(-996); return; }
+	}
+	std::vector<T> out; const char* end = 0;
+	setErrno(e);
+	int t = xconvert(x, out, &end, 0);
+	o.add(t); o.add(static_cast<ll>(end - x));
+	for (std::size_t i = 0; i != out.size(); ++i) o.add(static_cast<ll>(out[i]));
+	std::vector<T> out2;
+	setErrno(e);
+	o.add(string_cast(x, out2) ? 1 : 0);
+}
+template <class T, int N> void opStreamArray(Obs& o, bool e, const std::string& s) {
+	Guarded g(s); const char* x = g.x();
+	T out[N] = {}; const char* end = 0;
+	setErrno(e);
+	int t = xconvert(x, out, &end, 0);
+	o.add(t); o.add(static_cast<ll>(end - x));
+	for (int i = 0; i < t && i < N; ++i) o.add(static_cast<ll>(out[i]));
+	T out2[N] = {};
+	setErrno(e);
+	o.add(string_cast(x, out2) ? 1 : 0);
+}
+
 template <class T> void opMeta(Obs& o) {
 	EnumClass ec = T::enumClass();
 	o.add(ec.min); o.add(ec.max); o.add(static_cast<ll>(std::strlen(ec.rep))); o.addBytes(ec.rep, std::strlen(ec.rep));
@@ -412,6 +499,34 @@ int main() {
 					ll ty = c.next(); std::vector<ll> vs = takeVals(c);
 					if (!isComp(ty)) o.add(-998);
 					else withComp(ty, [&](auto t) { opBracketed<typename decltype(t)::type>(o, vs); });
+				}
+				else o.add(-998);
+			}
+			else if (op == 9) {
+				ll k = c.next();
+				if (k == 0) {
+					ll ty = c.next(); bool e = c.next() != 0; ll len = c.next(); std::string s = c.bytes(len > 0 ? (size_t)len : 0);
+					if (!withStream(ty, [&](auto t) { opStreamScalar<typename decltype(t)::type>(o, e, s); })) o.add(-998);
+				}
+				else if (k == 1) {
+					ll ta = c.next(), tb = c.next(); bool e = c.next() != 0; ll len = c.next(); std::string s = c.bytes(len > 0 ? (size_t)len : 0);
+					if (!isStreamComp(ta) || !isStreamComp(tb) || !(isStream(ta) || isStream(tb))) o.add(-998);
+					else withStreamComp(ta, [&](auto a) { withStreamComp(tb, [&](auto b) {
+						opStreamPair<typename decltype(a)::type, typename decltype(b)::type>(o, e, s); }); });
+				}
+				else if (k == 2) {
+					ll ty = c.next(), m = c.next(); bool e = c.next() != 0; ll len = c.next(); std::string s = c.bytes(len > 0 ? (size_t)len : 0);
+					if (!isStream(ty) || m < 0 || m > 3) o.add(-998);
+					else withStream(ty, [&](auto t) {
+						typedef typename decltype(t)::type T;
+						if      (m == 0) opStreamVector<T>(o, e, s);
+						else if (m == 1) opStreamArray<T, 1>(o, e, s);
+						else if (m == 2) opStreamArray<T, 2>(o, e, s);
+						else             opStreamArray<T, 3>(o, e, s);
+					});
+				}
+				else if (k == 4) {
+					o.add(SCHAR_MIN); o.add(SCHAR_MAX); o.add(UCHAR_MAX); o.add(SHRT_MIN); o.add(SHRT_MAX); o.add(USHRT_MAX);
 				}
 				else o.add(-998);
 			}
